@@ -780,6 +780,17 @@ def replay(ctx, path):
     return 0 if same else 1
 
 
+def regenerate(ctx):
+    """(setup) write coq/Gen/GGrammar.v from the current source so that the project builds"""
+    import grammar2coq
+    try:
+        text, g, its = grammar2coq.emit(os.path.join(common.REPO, "nmfu.py"))
+    except grammar2coq.Unsupported as e:
+        return str(e)
+    common.write_if_changed(os.path.join(COQ, "Gen", "GGrammar.v"), text)
+    return None
+
+
 def run(ctx):
     import grammar2coq
     quick = ctx.tier == "quick"
